@@ -535,6 +535,9 @@ class BasicContiguousVector<cntgs::Options<Option...>, Parameter...>
         // nothing can be stored until the assignment below has succeeded (it may throw)
         max_element_count_ = size_type{};
         memory_ = other.memory_;
+        // the block may have been replaced: the (empty) locator must not keep pointing into the old one if the
+        // construction of the new locator throws
+        locator_->reset(memory_begin());
         ElementLocatorAndFixedSizes other_locator{other.locator_, other.memory_begin(),     other.max_element_count_,
                                                   memory_begin(), other.max_element_count_, get_allocator()};
         BasicContiguousVector::insert_into(*other_locator, other.max_element_count_, memory_, other);
